@@ -160,8 +160,26 @@ def hist_ops(version):
     return ops
 
 
+FORM_B = [0.0, 0.001, 0.25, 0.5, 0.7, 1.0, 0.0, 1.0]
+FORM_LE = [7.0, 8.0, 9.0, 10.0, 11.0, 12.0, 6.0, 6.0]
+
+
+def judge_forms(version, f):
+    from .. import forms
+
+    t = taus(version, fresh=True)
+    return forms.judge(lambda bb, ll: t.tau_exit_prob(bb, ll), [np.array(FORM_B), np.array(FORM_LE)], tuple(f), what="tau_exit_prob")
+
+
 def run(ctx):
-    from .. import pipeline
+    from .. import forms, pipeline
+
+    # input forms: the angles / log-energies as integer, single-precision and byte-swapped arrays
+    for ver in (1, 2, 3):
+        for f in forms.product(2):
+            ctx.tick(len(FORM_B), ("forms", ver, f))
+            for c, e, o in judge_forms(ver, f):
+                ctx.violation(c, {"kind": "forms", "version": ver, "forms": list(f)}, e, o)
 
     # wiring: the run's stored columns are this stage applied to the run's stored columns (see nssmc/pipeline.py)
     pipeline.run_in(ctx, ['taus'], ('A', 'B'))
@@ -254,6 +272,8 @@ def replay(case):
 
         return pipeline.replay(case)
     k = case["kind"]
+    if k == "forms":
+        return judge_forms(case["version"], case["forms"])
     if k == "node":
         v, _ = judge_nodes(case["version"])
         return [(c, e, o) for c, ij, e, o in v if ij == (case["i"], case["j"])]
